@@ -30,6 +30,9 @@ pub struct HistCase {
     /// list, so that a replay does not depend on the generator version
     #[serde(default)]
     pub explicit: Option<Explicit>,
+    /// call arguments restricted to literals and iterators (GenCfg::literal_args_only)
+    #[serde(default)]
+    pub lit_args: bool,
 }
 
 #[derive(Clone, Debug, Serialize, Deserialize)]
@@ -56,6 +59,7 @@ impl HistCase {
             non_json: self.non_json,
             stream_fold_par_only: self.par_only,
             unbounded_rec: self.rec,
+            literal_args_only: self.lit_args,
         }
     }
 }
@@ -81,7 +85,7 @@ pub fn hist_strategy_dom(profile: u8, depth: u32, size: u32, max_sched: usize, n
             // confirmed known findings (K1..K5, DESIGN §14) and are excluded by construction;
             // VERIF_EXTENDED=1 re-enables them for exploration.
             let extended = ext && (with_extended || std::env::var("VERIF_EXTENDED").is_ok());
-            HistCase { sk, sched, n_peers, profile, non_json, extra, par_only: !extended, rec: false, explicit: None }
+            HistCase { sk, sched, n_peers, profile, non_json, extra, par_only: !extended, rec: false, explicit: None, lit_args: false }
         })
         .boxed()
 }
